@@ -219,3 +219,8 @@ mut("c09ds-writer-cur-not-advanced", "C09", "yrs/src/updates/encoder.rs", "     
 mut("c09ds-reader-returns-cur", "C09", "yrs/src/updates/decoder.rs", "            .checked_add(diff)\n            .ok_or(Error::UnexpectedValue)?;\n        Ok(diff)", "            .checked_add(diff)\n            .ok_or(Error::UnexpectedValue)?;\n        Ok(self.ds_curr_val)", "C09.packed")
 mut("c09ds-benign-named-sum", "C09", "yrs/src/updates/decoder.rs", "        self.ds_curr_val = self\n            .ds_curr_val\n            .checked_add(diff)\n            .ok_or(Error::UnexpectedValue)?;\n        Ok(diff)",
     "        let next = self.ds_curr_val.checked_add(diff).ok_or(Error::UnexpectedValue)?;\n        self.ds_curr_val = next;\n        Ok(diff)", "", kind="benign", also=["C10"])
+mut("c06h-gc-ignores-offset", "C06", B, "                encoder.write_len(x.len - offset);", "                let _ = offset;\n                encoder.write_len(x.len);", "C06.h", also=["C08"])
+mut("c06i-remainder-from-range-start", "C06", T, "                            unapplied.insert(ID::new(*client, state), clock_end - state);", "                            unapplied.insert(ID::new(*client, state), clock_end - clock);", "C06.i", also=["C04"])
+mut("c06i-skip-remainder-unclamped", "C06", T, "                                            let len = block.len().min(clock_end - clock);", "                                            let len = block.next_clock() - clock;", "C06.i", also=["C04"])
+mut("c06i-benign-named-remainder", "C06", T, "                            unapplied.insert(ID::new(*client, state), clock_end - state);", "                            let rest = clock_end - state;\n                            unapplied.insert(ID::new(*client, state), rest);", "", kind="benign", also=["C04"])
+mut("c10-state-vector-empty-client", "C10", U, "            if !blocks.is_empty() && blocks[0].id().clock == 0 {", "            if blocks[0].id().clock == 0 {", "C10.index")
